@@ -94,9 +94,6 @@ impl RawMemoryFreeList {
     fn units_per_block(&self) -> i32 {
         (conversions::pages_to_bytes(self.pages_per_block as _) >> LOG_BYTES_IN_UNIT) as _
     }
-    fn units_in_first_block(&self) -> i32 {
-        self.units_per_block() - self.heads - 1
-    }
     pub fn default_block_size(units: i32, heads: i32) -> i32 {
         usize::min(Self::size_in_pages(units, heads) as _, 16) as _
     }
@@ -136,9 +133,10 @@ impl RawMemoryFreeList {
     }
 
     fn current_capacity(&self) -> i32 {
-        let list_blocks = conversions::bytes_to_pages_up(self.high_water - self.base) as i32
-            / self.pages_per_block;
-        self.units_in_first_block() + (list_blocks - 1) * self.units_per_block()
+        // Count every mapped unit, including those of a partial last block (the table's page
+        // count need not be a multiple of the block size): top sentinels and one bottom sentinel
+        // are not available as units.
+        ((self.high_water - self.base) >> LOG_BYTES_IN_UNIT) as i32 - self.heads - 1
     }
 
     pub fn grow_freelist(&mut self, units: i32) -> bool {
@@ -216,7 +214,7 @@ impl RawMemoryFreeList {
             "Attempt to grow FreeList beyond limit"
         );
         if self.high_water + grow_extent > self.limit {
-            grow_extent = self.high_water - self.limit;
+            grow_extent = self.limit - self.high_water;
         }
         self.mmap(self.high_water, grow_extent);
         self.high_water += grow_extent;
